@@ -5,6 +5,7 @@ package vault
 // Shared helpers for the core-level monitors (overlaid into internal/vault).
 
 import (
+	"errors"
 	"context"
 	"encoding/json"
 	"fmt"
@@ -461,6 +462,10 @@ func (b *vRecBackend) ev(kind string, req *logical.Request) vRecEvent {
 
 func (b *vRecBackend) exists(ctx context.Context, req *logical.Request, d *framework.FieldData) (bool, error) {
 	b.rec.add(b.ev("existence", req))
+	if strings.HasPrefix(req.Path, "data/existfail/") {
+		// a backend whose existence check fails (as a storage fault inside it would)
+		return false, errors.New("verifrec: existence check failed")
+	}
 	e, err := req.Storage.Get(ctx, "d/"+req.Path)
 	return e != nil, err
 }
